@@ -1955,9 +1955,22 @@ class TensorDict(TensorDictBase):
             )
         if isinstance(repeats, int) and repeats < 0:
             raise RuntimeError("Repeats must be non-negative")
+        dim_size = self.batch_size[dim_corrected]
+        if isinstance(repeats, torch.Tensor) and repeats.ndim > 0 and repeats.numel() != 1:
+            # one count per element along dim: the new size is their sum
+            if repeats.ndim != 1 or repeats.numel() != dim_size:
+                raise RuntimeError(
+                    f"repeats must have the same size as the tensordict along dim {dim}, "
+                    f"got repeats of shape {repeats.shape} and a dim of size {dim_size}."
+                )
+            new_dim_size = (
+                int(output_size) if output_size is not None else int(repeats.sum())
+            )
+        else:
+            new_dim_size = dim_size * int(repeats)
         new_batch_size = torch.Size(
             [
-                s if i != dim_corrected else s * repeats
+                s if i != dim_corrected else new_dim_size
                 for i, s in enumerate(self.batch_size)
             ]
         )
